@@ -12,6 +12,9 @@
 (*         what Next returned: zero, or r/rns, wall = Go's wall-clock        *)
 (*         reading of r in the schedule's zone (cross-checks Calendar.tla);  *)
 (*         hang = the call did not return; far = r lies outside the table    *)
+(* All instants of a run are whole seconds since 00:00 UTC on 1 January of   *)
+(* the run's epochYear (reset line), so any century can be judged with 32 bit *)
+(* integers.                                                                 *)
 (* The monitor state carries the schedule's meaning computed by the spec     *)
 (* from the AST, never the sets the implementation computed.                 *)
 EXTENDS CronField, CronNext
@@ -19,6 +22,8 @@ EXTENDS CronField, CronNext
 Bad(why) == [bad |-> TRUE, why |-> why, kind |-> "none"]
 IsBad(c) == c.bad
 Range(s) == {s[i] : i \in 1..Len(s)}
+
+EpochDay(e) == DaysFromCivil(e.epochYear, 1, 1)
 
 CReset(e) ==
   LET m == Meaning(e.x)  o == e.out IN
@@ -37,27 +42,32 @@ CReset(e) ==
            wstar == {f \in {4, 6} : (m.star[f] = "yes" /\ ~o.bits[f].star) \/ (m.star[f] = "no" /\ o.bits[f].star)}
        IN IF wrong # {} THEN Bad("parse: wrong value set for " \o FieldName[CHOOSE f \in wrong : \A g \in wrong : f <= g])
           ELSE IF wstar # {} THEN Bad("parse: wrong star flag for " \o FieldName[CHOOSE f \in wstar : \A g \in wstar : f <= g])
-          ELSE [bad |-> FALSE, why |-> "", kind |-> "spec", set |-> m.set, rules |-> DayRules(m)]
+          ELSE [bad |-> FALSE, why |-> "", kind |-> "spec", set |-> m.set, rules |-> DayRules(m), ed |-> EpochDay(e)]
 
-(* verdict of one Next call under one day rule: "" = as stated *)
-Judge(S, rule, zt, e) ==
-  LET n == NextUpTo(S, rule, zt, e.t, IF e.zero THEN e.t + FiveYears ELSE e.r) IN
-  IF e.zero THEN IF n = None THEN "" ELSE "next: zero time although " \o ToString(n) \o " matches within five years"
+(* verdict of one Next call under one day rule: "" = as stated; otherwise    *)
+(* "next: <class>; detail" with class one of                                 *)
+(*   zero-although-match-exists   the zero time, but something matches within five years *)
+(*   result-does-not-match:<f>    the result violates field f (month, dom-dow, hour, minute, second: the coarsest) *)
+(*   skipped-earlier-match        the result matches, but so does an earlier instant after t *)
+Judge(S, rule, ed, zt, e) ==
+  LET n == NextUpTo(S, rule, ed, zt, e.t, IF e.zero THEN MustFindBy(ed, e.t) ELSE e.r) IN
+  IF e.zero THEN IF n = None THEN "" ELSE "next: zero-although-match-exists; first match " \o ToString(n)
   ELSE IF n = e.r THEN ""
-  ELSE IF n = None THEN "next: result does not match the expression, nor does anything before it; first match " \o
-                        ToString(NextUpTo(S, rule, zt, e.t, MinI(e.t + FiveYears, zt[Len(zt)].to - 1)))
-  ELSE "next: earlier match " \o ToString(n)
+  ELSE LET v == Violated(S, rule, ed, e.r + OffsetAt(zt, e.r)) IN
+       IF v = "" THEN IF n # None THEN "next: skipped-earlier-match " \o ToString(n) ELSE "SPEC-INCONSISTENT"
+       ELSE "next: result-does-not-match:" \o v \o "; first match " \o
+            ToString(IF n # None THEN n ELSE NextUpTo(S, rule, ed, zt, e.t, MinI(MustFindBy(ed, e.t), zt[Len(zt)].to - 1)))
 
 CNext(c, e, zt) ==
   IF c.kind = "none" THEN c
-  ELSE IF e.hang THEN Bad("next: did not return")
+  ELSE IF e.hang THEN Bad("next: hang")
   ELSE IF c.kind = "every" THEN
        IF ~e.zero /\ e.r = e.t + c.delay /\ e.rns = 0 THEN c
-       ELSE Bad("next: @every result is not t truncated to the second plus the delay; expected " \o ToString(e.t + c.delay))
-  ELSE IF e.far THEN Bad("next: result lies more than seven years away or before t")
-  ELSE IF ~e.zero /\ e.rns # 0 THEN Bad("next: result is not a whole second")
-  ELSE IF ~e.zero /\ e.r <= e.t THEN Bad("next: result is not after t")
-  ELSE IF ~e.zero /\ WallOf(zt, e.r) # e.wall THEN Bad("SPEC-CALENDAR-MISMATCH")
-  ELSE LET js == {Judge(c.set, rule, zt, e) : rule \in c.rules} IN
+       ELSE Bad("next: every-wrong; expected " \o ToString(e.t + c.delay))
+  ELSE IF e.far THEN Bad("next: result-out-of-range")
+  ELSE IF ~e.zero /\ e.rns # 0 THEN Bad("next: result-not-whole-second")
+  ELSE IF ~e.zero /\ e.r <= e.t THEN Bad("next: result-not-after-t")
+  ELSE IF ~e.zero /\ WallOf(c.ed, zt, e.r) # e.wall THEN Bad("SPEC-CALENDAR-MISMATCH")
+  ELSE LET js == {Judge(c.set, rule, c.ed, zt, e) : rule \in c.rules} IN
        IF "" \in js THEN c ELSE Bad(CHOOSE j \in js : TRUE)
 =============================================================================
